@@ -492,6 +492,8 @@ def dispatch(ctx, case):
         return intbase_pow_fails(case)
     if case.get('op') == 'arrbase-pow':
         return arrbase_pow_fails(case)
+    if case.get('op') == 'list-operand':
+        return list_operand_fails(case)
     if case.get('op') == 'one-element-const':
         return one_element_const_fails(case)
     if case.get('op') == 'bigexp-pow':
@@ -521,6 +523,7 @@ def run(ctx):
     systematic_pow_dtypes(ctx)
     systematic_intbase_pow(ctx)
     systematic_arrbase_pow(ctx)
+    systematic_list_operands(ctx)
     systematic_bigexp_pow(ctx)
     systematic_one_element_const(ctx)
     for i in range(n):
@@ -692,6 +695,46 @@ def arrbase_pow_fails(case):
                 return 'arrbase-pow: entry %s of array ** x differs from the scalar-base power %r ** x[...] (base shape %s, x shape %s, P=%d)' % (
                     idx, float(rb[idx]), r.shape, x.shape[2:], P)
     return None
+
+
+LIST_FORMS = {
+    'x + c': lambda x, c: x + c, 'x - c': lambda x, c: x - c, 'x * c': lambda x, c: x * c, 'x / c': lambda x, c: x / c,
+    'c + x': lambda x, c: c + x, 'c - x': lambda x, c: c - x, 'c * x': lambda x, c: c * x, 'c / x': lambda x, c: c / x,
+    'x += c': lambda x, c: operator.iadd(x, c), 'x -= c': lambda x, c: operator.isub(x, c), 'x *= c': lambda x, c: operator.imul(x, c),
+    'x /= c': lambda x, c: operator.itruediv(x, c),
+}
+
+
+def list_operand_fails(case):
+    """a constant given as a Python list / tuple / nested list (NumPy accepts ndarray + list): the same coefficients as with the
+    constant given as an ndarray"""
+    x = np.array(case['x'])
+    c = np.array(case['c'])
+    f = LIST_FORMS[case['form']]
+    want = f(UTPM(x.copy()), c.copy()).data
+    cl = c.tolist() if case['container'] == 'list' else tuple(c.tolist())
+    try:
+        got = f(UTPM(x.copy()), cl)
+    except Exception as ex:
+        return 'list-operand-exception: %s with the constant given as a %s raised %s (the ndarray works)' % (case['form'], case['container'], type(ex).__name__ + ':' + str(ex)[:50])
+    if not isinstance(got, UTPM) or got.data.shape != want.shape or not np.array_equal(got.data, want):
+        return 'list-operand: %s with the constant given as a %s differs from the same constant given as an ndarray' % (case['form'], case['container'])
+    return None
+
+
+def systematic_list_operands(ctx):
+    rng = ctx.rng
+    for form in sorted(LIST_FORMS):
+        for container, cs in (('list', (3,)), ('tuple', (3,)), ('list', (2, 3))):
+            x = rand_coeffs(rng, (3, 2) + ((2, 3) if len(cs) == 2 or rng.random() < 0.5 else (3,)), -2, 2)
+            x[0] = np.abs(x[0]) + 0.5
+            c = np.abs(rand_coeffs(rng, cs, -2, 2)) + 0.5
+            case = {'op': 'list-operand', 'form': form, 'container': container, 'D': 3, 'P': 2, 'x': x, 'c': c}
+            ctx.evaluations += 1
+            ctx.count('operand=list')
+            res = list_operand_fails(case)
+            if res is not None:
+                ctx.report(case, 'failure', res)
 
 
 def systematic_arrbase_pow(ctx):
